@@ -7,6 +7,10 @@
 //! that no heap growth is involved; exceeding it is a harness-bound error, not a property failure.
 pub const CAP: usize = 4;
 
+/// stands in for the BuildHasher argument of `with_hasher` / `with_capacity_and_hasher` (there is no hashing)
+#[derive(Default, Clone, Copy, Debug)]
+pub struct NoHasher;
+
 /// Straight-line expansion over the CAP slots (no loop, so the harness's unwind bound is spent on the
 /// code under test only).
 macro_rules! unroll {
@@ -66,6 +70,17 @@ impl<K, V> HashMap<K, V> {
     }
     pub fn with_capacity(_n: usize) -> Self {
         Self::new()
+    }
+    pub fn with_capacity_and_hasher(_n: usize, _h: NoHasher) -> Self {
+        Self::new()
+    }
+    pub fn with_hasher(_h: NoHasher) -> Self {
+        Self::new()
+    }
+    pub fn reserve(&mut self, _n: usize) {}
+    pub fn shrink_to_fit(&mut self) {}
+    pub fn capacity(&self) -> usize {
+        CAP
     }
     pub fn len(&self) -> usize {
         let mut n = 0;
